@@ -38,6 +38,9 @@ declarations:
   - decl: ~Cls()
   - decl: int get() const
   - decl: Cls * clone() +owner(caller)
+- decl: namespace inner
+  declarations:
+  - decl: Cls * spawn(int v) +owner(caller)
 - decl: Cls * pooled(int v) +owner(caller)+free_pattern(pool_release)
 - decl: Cls * make(int v) +owner(caller)
 - decl: Cls * borrow() +owner(library)
@@ -59,6 +62,7 @@ HPP = """
 #include <string>
 #include <vector>
 class Cls { public: int value; explicit Cls(int v); ~Cls(); int get() const; Cls *clone(); };
+namespace inner { Cls *spawn(int v); }
 Cls *pooled(int v);
 void pool_put(Cls *p);
 Cls *make(int v);
@@ -81,6 +85,7 @@ Cls::~Cls() { vt_live(-1); vt_begin("Lib", "dtor"); vt_obj(this); vt_end(); }
 int Cls::get() const { return value; }
 Cls *Cls::clone() { return new Cls(value + 1); }
 Cls *make(int v) { return new Cls(v); }
+namespace inner { Cls *spawn(int v) { return new Cls(v + 7); } }
 Cls *pooled(int v) { return new Cls(v + 500); }
 void pool_put(Cls *p) { vt_begin("Lib", "pool"); vt_obj(p); vt_end(); delete p; }
 static Cls *the_static = 0;
